@@ -211,8 +211,8 @@ def observe(c):
     return out
 
 
-TAGS_SMALL = [5, "5", "05", "abc"]
-TAGS = [5, "5", "05", " 5", "+5", FTag.Account, "1", 7, "7", "abc", "", 1.5, 448]
+TAGS_SMALL = [5, "5", "05", "abc", 5.0]  # (5.0 == 5 and hashes alike, but is not an integer spelling: '5.0')
+TAGS = [5, "5", "05", " 5", "+5", FTag.Account, "1", 7, "7", "abc", "", 1.5, 448, 5.0, True, 7.0]
 VALUES = ["x", "a|7=b", 3, 2.5, FOrdStatus.NEW, "", "1=>[1=a]"]
 
 
@@ -388,6 +388,17 @@ def final_checks(run):
             d3[9999] = "extra"
             if c == d3:
                 bad.append("equal to a dict with an additional tag")
+            if d:
+                k1 = sorted(d)[0]
+                d4 = dict(d)
+                d4[str(k1)] = d[k1]  # the same tag spelled a second time: still the same content
+                d4["0%d" % k1 if k1 >= 0 else str(k1)] = d[k1]
+                if not (c == d4):
+                    bad.append("not equal to a dict of its own tags in which one tag is spelled twice")
+                if len(d) >= 2:
+                    del d4[sorted(d)[1]]  # ... and with another tag missing: different content
+                    if c == d4:
+                        bad.append("equal to a dict that lacks one of its tags (another tag is spelled twice in the dict)")
             q = c.query()
             want = {}
             for k, v in m.d.items():
